@@ -606,7 +606,30 @@ def _scaled_before_truncation(ctx, mod, root, leaf):
     return True
 
 
+def _owner_package(ctx):
+    """Thorough tier: over the whole package the running and clean-up
+    link directories of the node are changed only by the configuration
+    manager, the monitor's clean-up action and the clean-up service."""
+    def other_env(func, call):
+        # the spawn tree has directories of the same names under its own
+        # root (self.paths.*), unrelated to the node's app environment
+        return func.module.name.startswith('treadmill.spawn')
+    K.owner_clause(ctx, 'C13.6', 'running_dir',
+                   {(ACM, 'AppCfgMgr'): None,
+                    (MON, 'MonitorContainerCleanup'): None},
+                   'the running-link directory', minimum=2,
+                   ignore=other_env)
+    K.owner_clause(ctx, 'C13.2', 'cleanup_dir',
+                   {(ACM, 'AppCfgMgr'): None,
+                    (MON, 'MonitorContainerCleanup'): None,
+                    ('treadmill.cleanup', 'Cleanup'): None},
+                   'the clean-up link directory', minimum=2,
+                   ignore=other_env)
+
+
 def check(ctx):
+    if ctx.tier == 'thorough':
+        _owner_package(ctx)
     _generation_id(ctx)
     acm = ctx.index.get_class(ACM, 'AppCfgMgr')
     sync, term, graph, loop, cvar, ksync = _kinds(ctx, acm)
@@ -622,6 +645,7 @@ _A = 'lib/python/treadmill/appcfgmgr.py'
 _MO = 'lib/python/treadmill/monitor.py'
 
 MUTANTS = [
+    ('foreign-writer-of-the-running-dir', [('lib/python/treadmill/cleanup.py', '        cleanup_link = os.path.join(self.tm_env.cleanup_dir, instance)\n        try:\n            container_dir = os.readlink(cleanup_link)\n', '        cleanup_link = os.path.join(self.tm_env.cleanup_dir, instance)\n        fs.rm_safe(os.path.join(self.tm_env.running_dir, instance))\n        try:\n            container_dir = os.readlink(cleanup_link)\n')], 'C13.6', 'thorough'),
     ('cleanup-test-instance-only', [(_A, """            elif (os.path.exists(os.path.join(self.tm_env.cleanup_dir,
                                               appname)) or
                   os.path.exists(os.path.join(self.tm_env.cleanup_dir,
